@@ -213,6 +213,40 @@ def compute_bounded(sess: Session):
             'freq': repr(f)}, True, functions=('wn.ic.compute',))
 
 
+def expand_bounded(sess: Session):
+    """compute() on a Wordnet with an expand lexicon: the ancestors of a counted synset that are reached only through
+    (several different) inferred synsets receive the count; inferred synsets themselves get no entry."""
+    import os
+    import shutil
+    import tempfile
+    import wn
+    from bounded import determinism as D
+    work = tempfile.mkdtemp(prefix='wnic15')
+    old = wn.config.data_directory
+    problems = []
+    try:
+        D.build(work)
+        wn.config.data_directory = os.path.join(work, 'data')
+        w = wn.Wordnet('w:1', expand='t:1')
+        for smoothing in (1.0, 0.0):
+            f = wnic.compute(['wword', 'wword', 'nosuchword'], w, smoothing=smoothing)
+            want = {'w-1': smoothing + 2.0, 'w-2': smoothing + 2.0}
+            got = {k: f['n'].get(k) for k in ('w-1', 'w-2')}
+            if got != want:
+                problems.append(f'smoothing={smoothing}: weights {got}, expected w-1 = w-2 = {smoothing + 2.0} (the root is '
+                                'an ancestor of the counted leaf through inferred synsets)')
+            if any(k == '*INFERRED*' for k in f['n']):
+                problems.append('an inferred synset received a weight entry')
+    finally:
+        wn.config.data_directory = old
+        shutil.rmtree(work, ignore_errors=True)
+    sess.add_bounded('wn.ic.compute through an expand lexicon', 'leaf + root of the 11-synset taxonomy, 2 smoothing '
+                     'values', 2, 'native execution against the definition', not problems)
+    if problems:
+        sess.violation_direct('wn.ic.compute:expand', '; '.join(problems)[:1200], {'problems': problems}, True,
+                              functions=('wn.ic.compute',))
+
+
 def run(sess: Session):
     # hypernym walks are built on Synset._iter_*relations and get_synset_relations: the synsets they hand out must
     # carry their own lexicon / ILI / Wordnet (sets of synsets and their hashes depend on it)
@@ -243,4 +277,5 @@ def run(sess: Session):
     except Unsupported as exc:
         sess.unsupported('wn._core._find_helper:flow', str(exc))
     compute_bounded(sess)
+    expand_bounded(sess)
     load_bounded(sess)
